@@ -529,6 +529,34 @@ fn parse_qualified_rule(input: &mut StepParser, ss: &mut StyleSheetTransformer) 
         if r.is_ok() {
             return;
         }
+        // `:host` later in the selector (`.a, :host`, `a:host`) is a combination as well
+        let r = input.try_parse::<_, _, ParseError<()>>(|input| {
+            let mut after_colon = false;
+            let mut found = None;
+            loop {
+                let next = input.next_including_whitespace()?;
+                match &*next {
+                    Token::CurlyBracketBlock => break,
+                    Token::Ident(x) | Token::Function(x)
+                        if after_colon && x.eq_ignore_ascii_case("host") =>
+                    {
+                        if found.is_none() {
+                            found = Some(input.position());
+                        }
+                    }
+                    _ => {}
+                }
+                after_colon = *next == Token::Colon;
+            }
+            let Some(pos) = found else {
+                return Err(input.new_custom_error(()));
+            };
+            ss.add_warning(error::ParseErrorKind::HostSelectorCombination, pos..pos);
+            Ok(())
+        });
+        if r.is_ok() {
+            return;
+        }
     }
     loop {
         let r = input.try_parse::<_, _, ParseError<()>>(|input| {
